@@ -5,6 +5,7 @@ import (
 	"fmt"
 	"io"
 	"math/big"
+	"net"
 	"net/http"
 	"os"
 	"path/filepath"
@@ -155,7 +156,7 @@ func binEconomy(ev *vlib.Evidence, prop string, idx int) {
 		return
 	}
 	r := vlib.Rand("binary-economy", idx) // same scenarios for the three properties
-	const len7 = 7 // number of minimum configurations below
+	const len7 = 7                        // number of minimum configurations below
 	type priceCfg struct {
 		flag string
 		wei  int64 // per minute
@@ -413,4 +414,100 @@ func binEconomy(ev *vlib.Evidence, prop string, idx int) {
 	if idx == 0 {
 		ev.Sample(map[string]interface{}{"layer": "binary-economy", "trace": trace})
 	}
+}
+
+// binCutOffHangUp (C03): the client sends the keep-alive that cuts it off over
+// plain HTTP and hangs up without waiting for the answer. Its request is
+// complete and is processed; the hosts peering with it must still be asked to
+// disconnect it.
+func binCutOffHangUp(ev *vlib.Evidence, idx int) {
+	bin, err := vlib.BuildVipnode("plain")
+	if err != nil {
+		ev.Inconclusive("build")
+		return
+	}
+	dir, _ := os.MkdirTemp("", "verif-binhang-")
+	defer os.RemoveAll(dir)
+	addr := fmt.Sprintf("127.0.0.1:%d", vlib.FreePort())
+	p, err := vlib.StartProc(filepath.Join(dir, "pool.log"), []string{"HOME=" + dir}, bin, "pool", "--store=memory", "--bind", addr, "--contract.min-balance=0")
+	if err != nil || !p.WaitListening(addr, 30*time.Second) {
+		if p != nil {
+			p.Kill(false)
+		}
+		ev.Inconclusive("pool-start")
+		return
+	}
+	defer p.Kill(false)
+	nh := 1 + idx%3
+	hosts := []*binSession{}
+	infos := []ethnode.PeerInfo{}
+	for i := 0; i < nh; i++ {
+		id := vlib.NewIdentity("binhang-host", idx*3+i)
+		s, err := newBinSession(addr, id)
+		if err != nil {
+			ev.Inconclusive("ws-dial")
+			return
+		}
+		defer s.c.Close()
+		if _, e, _, _, ok := s.call("vipnode_connect", vlib.ConnectReq(true, "geth", "enode://"+id.NodeID+"@203.0.113.9:30303", "")); !ok || e != "" {
+			ev.Inconclusive("host-connect")
+			return
+		}
+		hosts = append(hosts, s)
+		infos = append(infos, ethnode.PeerInfo{ID: id.NodeID})
+	}
+	client := vlib.NewIdentity("binhang-client", idx)
+	cs, err := newBinSession(addr, client)
+	if err != nil {
+		ev.Inconclusive("ws-dial")
+		return
+	}
+	defer cs.c.Close()
+	if _, e, _, _, ok := cs.call("vipnode_connect", vlib.ConnectReq(false, "geth", "", "")); !ok || e != "" {
+		ev.Inconclusive("client-connect")
+		return
+	}
+	time.Sleep(200 * time.Millisecond) // some billable time
+	req := pool.UpdateRequest{PeerInfo: infos, BlockNumber: 5}
+	n := time.Now().UnixNano() + 1000000
+	all, _ := json.Marshal([]interface{}{vlib.RefSign(client.Key, "vipnode_update", client.NodeID, n, req), client.NodeID, n, req})
+	body := fmt.Sprintf(`{"jsonrpc":"2.0","id":1,"method":"vipnode_update","params":%s}`, all)
+	conn, err := net.Dial("tcp", addr)
+	if err != nil {
+		ev.Inconclusive("dial")
+		return
+	}
+	fmt.Fprintf(conn, "POST / HTTP/1.1\r\nHost: %s\r\nContent-Type: application/json\r\nContent-Length: %d\r\n\r\n%s", addr, len(body), body)
+	conn.Close() // hang up at once
+	desc := fmt.Sprintf("cut-off keep-alive over HTTP with hang-up hosts=%d idx=%d", nh, idx)
+	ev.Case(desc, true)
+	ev.Count("binary-economy:cut-off-with-hang-up", 1)
+	deadline := time.Now().Add(8 * time.Second)
+	asked := 0
+	for time.Now().Before(deadline) {
+		asked = 0
+		for _, h := range hosts {
+			for _, rc := range h.reverseCalls() {
+				if strings.HasPrefix(rc, "vipnode_disconnect") && strings.Contains(rc, client.NodeID) {
+					asked++
+					break
+				}
+			}
+		}
+		if asked == nh {
+			return
+		}
+		time.Sleep(50 * time.Millisecond)
+	}
+	// was the request processed at all? the client's balance tells (a fresh keep-alive over the websocket)
+	_, e, _, _, ok := cs.call("vipnode_update", pool.UpdateRequest{PeerInfo: infos, BlockNumber: 6})
+	if !ok {
+		ev.Inconclusive("ws")
+		return
+	}
+	if m := lowBalanceRe.FindStringSubmatch(e); m == nil {
+		ev.Inconclusive("hang-up-request-not-processed")
+		return
+	}
+	ev.Violate("binary-economy:host-not-asked-to-disconnect-cut-off-client:hang-up", map[string]interface{}{"case": desc, "hosts": nh, "hosts_asked": asked})
 }
